@@ -294,3 +294,24 @@ def check_function(fn, enums, assume=None):
                 out.append((n, ok, "%s stays inside %s (operand %s)" % (show(n), n.get("t"), list(a)) if ok else
                             "signed %s can overflow: operand range [%d, %d] — undefined behaviour" % (show(n), a[0], a[1])))
     return out
+
+
+def narrowing_conversions(fn, enums, assume=None):
+    """Implicit integer conversions whose operand range does not fit the target type (value-changing, silent).
+    Yields (node, from range, target type)."""
+    env = Env(fn["body"])
+    env.def_guard = {}
+    out = []
+    for st, g, loops in ir.guarded_statements_lc(fn["body"], env):
+        nodes = list(ir.walk(st["cond"])) if st.get("k") == "IfCond" else ([] if st.get("k") in ("LoopHead", "SwitchHead") else list(ir.walk(st)))
+        ctx = Ctx(g, env, enums, loops, assume)
+        for n in nodes:
+            if n.get("k") == "Cast" and n.get("style") == "implicit" and n.get("ck") == "IntegralCast":
+                tr = type_range(n.get("t"), enums)
+                inner = rng(n.get("e"), ctx)
+                if tr is None or inner is None:
+                    continue
+                if inner[0] < tr[0] or inner[1] > tr[1]:
+                    out.append((n, inner, (n.get("t") or "").replace("const ", "")))
+        # the value of a return statement is converted to the function's return type
+    return out
